@@ -1526,7 +1526,9 @@ class Exec:
             mutable = z3.Or(*[M.isinstance_f(self.ct, z, k) for k in ("list", "dict", "set", "bytearray")])
             self.escape_ctr = getattr(self, "escape_ctr", 0) + 1
             self.oblige(st, f"{self.fname.split(':')[-1]}:escape[{name}]#{self.escape_ctr}", "escape", z3.Not(mutable),
-                        ("C07",), text=f"the object stored as prop `{name}` is not a mutable container owned by the caller",
+                        # (ownership supports every property of the function: its contracts describe the schema built as
+                        # a value that the caller cannot change afterwards)
+                        tuple(sorted(set(getattr(self, "current_props", ())) | {"C07"})), text=f"the object stored as prop `{name}` is not a mutable container owned by the caller",
                         where=self.where())
 
     def inline(self, info: FuncInfo, bound: Any, pos: List[Any], kws: Dict[str, Any],
